@@ -175,6 +175,8 @@ class Session:
         self._keep = []
         self.dead = False
         self.kinds = []
+        self._others = []
+        self.other_ids = set()
 
     # -- mark ----------------------------------------------------------------------------------------------------------
     def mark(self):
@@ -195,8 +197,15 @@ class Session:
 
     def site(self, owner, field, mode, idx=None):
         p = self.mpaths.get(id(owner))
-        return {'known': p is not None, 'path': pj(p or ()), 'n': field, 'mode': mode,
-                'i': 0 if idx is None else idx + 1}
+        org = 'mark' if p is not None else 'other' if id(owner) in self.other_ids else 'new'
+        return {'known': p is not None, 'org': org, 'path': pj(p or ()), 'kind': owner.__class__.__name__, 'n': field,
+                'mode': mode, 'i': 0 if idx is None else idx + 1}
+
+    def register_other(self, fst_root):
+        """Remember the AST objects of another FST tree (kept alive) so that sites inside them are classed 'other'."""
+        self._others.append(fst_root)
+        for n, _ in walk(fst_root.a, True):
+            self.other_ids.add(id(n))
 
     def mutated(self, kind, pos, sites, desc):
         self.kinds.append(kind)
@@ -337,12 +346,12 @@ class Mutator:
         if typ == 'stmt':
             src = self.rng.choice(OTHER_STMT)
             f = FST(src, 'exec')
-            self.others.append(f)
+            self.s.register_other(f)
             return f.a.body[0], 'other', src
         if typ == 'expr':
             src = self.rng.choice(OTHER_EXPR)
             f = FST(f'ov = {src}  # other value', 'exec')
-            self.others.append(f)
+            self.s.register_other(f)
             return f.a.body[0].value, 'other', src
         return self.new_node(typ)
 
